@@ -185,12 +185,14 @@ PROPS = {
     },
     "C20": {
         "level": "exploration",
-        "technique": "runtime monitor: issue/replay/tamper scripts; strict Set-Cookie parsing of wire bytes; exhaustive single-byte substitution/truncation/extension of issued ciphertexts judged by a base64-identity rule",
+        "technique": "runtime monitor: issue/replay/tamper scripts; strict Set-Cookie parsing of wire bytes; exhaustive single-byte substitution/truncation/extension of issued ciphertexts judged by a base64-identity rule (format-agnostic rule when the encoding is not recognised); concurrent clients through one middleware instance under the race detector",
         "level_text": "Behind the middleware handlers set cookies with unique plaintexts (binary, empty, long): the wire Set-Cookie must not contain the plaintext and must differ between two issues; replayed cookies must reach the handler with the original value; every single-byte substitution at every position (x3 values quick, x255 thorough), truncation, extension and other-key ciphertext must reach the handler as empty unless it decodes to the identical ciphertext bytes; excepted names pass unchanged; several cookies per request incl. duplicates are checked through Cookies() and VisitAllCookie.",
         "level_note": TRUSTED + "; a ciphertext issued for name A and presented under name B is not treated as forged (nothing in the statement binds value to name).",
         "rule": "case = issue/replay script, tamper base x mutation, or multi-cookie request; non-trivial = tamper cases and requests with >=2 cookies; distinct by (base, mutation) / request",
         "subs": [
             {"engine": "encc", "mode": "plain", "shards": {Q: 16, T: 16}, "min_nontrivial": {Q: 2000, T: 50000},
+             "timeout": {Q: 600, T: 3000}},
+            {"engine": "encc.conc", "mode": "race", "shards": {Q: 4, T: 16}, "min_nontrivial": {Q: 20, T: 500},
              "timeout": {Q: 600, T: 3000}},
         ],
     },
